@@ -245,7 +245,7 @@ theorem typing_sound (p : Prog) (h : p.wf = true) (bs : List Nat) (hb : p.bounda
   subst e
   obtain ⟨s0, hi, hinv⟩ := tinit_inv (env := env) (a := a) hwf pos h0 hn
   refine ⟨s0, hi, fun f hf => ?_⟩
-  obtain ⟨h1, h2⟩ := trun_ok hwf hty fuel s0 hinv f hf
+  obtain ⟨h1, h2⟩ := trun_ok hwf (Typing.toW hty) fuel s0 hinv f hf
   exact only_capRange f h1 h2
 
 /-- **(A) Soundness of the evaluated check.**  `StackTyping.typed p = true` (what leg W evaluates on every compiled
